@@ -456,6 +456,13 @@ def r06_13(run, model):
     run.ob("R06.13", "resolve_pat|guards examined", True, site(NR, ms[0]["sp"]), f"{n} guarded arm(s)")
 
 
+def r06_14(run, model):
+    """the match compiler rejects a literal match without a catch-all by a diagnostic and goes on with `missing("")`: the rejection happens
+    at the gate that follows it (shared with C03 R03.1, match-compilation stage only)"""
+    from rules import c03
+    c03.r03_1(run, model, stages=("matchc",))
+
+
 def run(run, model):
     mir = Mir(run.facts)
     run.try_rule(r06_1, model, mir)
@@ -475,4 +482,8 @@ def run(run, model):
     run.try_rule(c08.r08_2, model)
     from rules import c01
     run.try_rule(c01.r01_5, model, ("crates/compiler/src/compile_match.rs",))
+    run.try_rule(r06_14, model)
+    # a literal pattern whose range check is skipped is compiled as the pattern `0`: another arm is selected (shared with C10 R10.6)
+    from rules import c10
+    run.try_rule(c10.r10_6, model)
     run.assume("tast_builder::build_pat and compile_struct_case read struct-pattern arguments positionally in declaration order (read and confirmed)")
